@@ -36,6 +36,15 @@ type Trace struct {
 	Entry   string   `json:"entry"`
 	Steps   []Step   `json:"steps"`
 	Ps      []PsStep `json:"ps,omitempty"`
+	P       uint64        `json:"p,omitempty"`
+	Mem     []MemStep     `json:"mem,omitempty"`
+	Table0  [][2][]string `json:"table0,omitempty"`
+}
+
+type MemStep struct {
+	Op    string        `json:"op"`
+	Idx   int           `json:"idx"`
+	Table [][2][]string `json:"table"`
 }
 
 type PsStep struct {
@@ -97,10 +106,10 @@ func Replay(c *core.Ctx, traces []Trace) {
 	go func() { out, runErr = cmd.Output(); close(done) }()
 	select {
 	case <-done:
-	case <-time.After(6 * time.Minute):
+	case <-time.After(20 * time.Minute):
 		cmd.Process.Kill()
 		<-done
-		c.Cov["conformance"] = "replayer exceeded 6 minutes: inconclusive, 0 traces validated"
+		c.Cov["conformance"] = "replayer exceeded 20 minutes: inconclusive, 0 traces validated"
 		return
 	}
 	var s Summary
@@ -112,7 +121,7 @@ func Replay(c *core.Ctx, traces []Trace) {
 	c.Cov["conformance"] = map[string]interface{}{
 		"traces_exported": s.Traces, "validated_on_real_stack": s.Validated, "inconclusive": s.Inconclusive,
 		"disagreements": len(s.Disagreements), "real_clusters_started": s.Clusters, "wall_s": s.WallS,
-		"how": "each trace (sequential client operations with the observations of the simulated run) is replayed through the public API on real olric members (olric.New+Start, loopback TCP, real memberlist, real clock); every step's error class / value / count must match",
+		"how": "each trace carries the observations of the simulated run and is replayed on the unmodified stack (no build tag, no overlay; olric.New+Start, loopback TCP, real memberlist, real clock): client traces through the public API (every step's error class / value / count must match), pub/sub traces through go-redis PubSub connections (PUBLISH reply, copies received per connection, CHANNELS/NUMSUB/NUMPAT after every step), membership traces with child-process members under the same addresses (join, SIGTERM, SIGKILL; the routing table the real cluster settles on after every event must equal the simulated one)",
 	}
 	for _, d := range s.Disagreements {
 		fmt.Printf("CONFORMANCE-DISAGREEMENT property=%s (harness stand-in differs from the real stack; not a property verdict): %s\n", c.ID, d)
